@@ -261,6 +261,33 @@ def inline(fn, resolver: Callable[[ast.Call], Optional[Tuple[ast.FunctionDef, Op
     return _set_parents(new)
 
 
+def _hoist_spine_call(st, eligible):
+    """if the first thing `st.value` evaluates (after plain names) is an inlinable multi-statement helper call that is
+    not the whole value, replace it by a fresh temp and return the `temp = call` statement to put in front"""
+    parent, fld, node = st, "value", st.value
+    top = True
+    while True:
+        if isinstance(node, ast.Call) and not top:
+            el = eligible(node)
+            if el is not None and _single_expr(el[0]) is None:
+                tmp = f"_t{next(_counter)}"
+                setattr(parent, fld, ast.copy_location(ast.Name(id=tmp, ctx=ast.Load()), node)) if not isinstance(fld, tuple) else getattr(parent, fld[0]).__setitem__(fld[1], ast.copy_location(ast.Name(id=tmp, ctx=ast.Load()), node))
+                return ast.copy_location(ast.Assign(targets=[ast.Name(id=tmp, ctx=ast.Store())], value=node), st)
+        top = False
+        if isinstance(node, (ast.Attribute, ast.Subscript, ast.Starred)):
+            parent, fld, node = node, "value", node.value
+        elif isinstance(node, ast.Call):
+            f = node.func
+            if isinstance(f, ast.Name) or (isinstance(f, ast.Attribute) and isinstance(f.value, ast.Name)):
+                if node.args:
+                    parent, fld, node = node, ("args", 0), node.args[0]
+                    continue
+                return None
+            parent, fld, node = node, "func", f
+        else:
+            return None
+
+
 def _inline_once(fn, resolver, keep) -> bool:
     changed = False
 
@@ -291,6 +318,13 @@ def _inline_once(fn, resolver, keep) -> bool:
                     setattr(st, fld, do_block(sub))
             for h in getattr(st, "handlers", []) or []:
                 h.body = do_block(h.body)
+            # a helper call on the evaluation spine of a simple statement (`h(x).a[0]`, `g(h(x))`): hoist into a temp
+            if isinstance(st, (ast.Assign, ast.AnnAssign, ast.Expr, ast.Return)) and getattr(st, "value", None) is not None:
+                hoisted = _hoist_spine_call(st, eligible)
+                if hoisted is not None:
+                    changed = True
+                    out.extend(do_block([hoisted, st]))
+                    continue
             call, target, mode = None, None, None
             if isinstance(st, ast.Expr) and isinstance(st.value, ast.Call):
                 call, mode = st.value, "expr"
@@ -587,4 +621,5 @@ def canonical(fn, resolver=None, keep=None, depth=2):
     new = inline(fn, resolver, depth, keep) if resolver is not None else copy_fn(fn)
     new = loops_to_comprehensions(new)
     new = ifexp_assignments_to_if(new)
+    new = formats_to_fstrings(new)
     return expand_starstar_dicts(new)
